@@ -322,6 +322,51 @@ func (cc *checkCtx) propertySpecific() {
 	cc.runLemmas()
 	cc.runAccessScans()
 	cc.runBounded()
+	if cc.prop == "C03" {
+		cc.runNondetScan()
+	}
+}
+
+// runNondetScan: no source of nondeterminism in repository code (goroutines, select, clocks, random numbers,
+// pointer-to-integer conversions). One obligation; every offending site is listed.
+func (cc *checkCtx) runNondetScan() {
+	e := cc.e
+	var bad []string
+	nfn := 0
+	for _, fn := range e.allFuncs {
+		if !e.inRepo(fn) || fn.Blocks == nil {
+			continue
+		}
+		nfn++
+		for _, b := range fn.Blocks {
+			for _, ins := range b.Instrs {
+				switch x := ins.(type) {
+				case *ssa.Go, *ssa.Select:
+					bad = append(bad, fmt.Sprintf("%s: %T at %s", e.keyOf(fn), ins, cc.posOfIns(ins)))
+				case *ssa.Convert:
+					if _, isP := x.X.Type().Underlying().(*types.Pointer); isP {
+						if bt, ok := x.Type().Underlying().(*types.Basic); ok && bt.Info()&types.IsInteger != 0 {
+							bad = append(bad, fmt.Sprintf("%s: pointer converted to integer at %s", e.keyOf(fn), cc.posOfIns(ins)))
+						}
+					}
+				case ssa.CallInstruction:
+					if f := x.Common().StaticCallee(); f != nil && f.Pkg != nil {
+						p := f.Pkg.Pkg.Path()
+						if p == "math/rand" || p == "crypto/rand" || (p == "time" && (f.Name() == "Now" || f.Name() == "Since")) {
+							bad = append(bad, fmt.Sprintf("%s: call to %s.%s at %s", e.keyOf(fn), p, f.Name(), cc.posOfIns(ins)))
+						}
+					}
+				}
+			}
+		}
+	}
+	o := &Obligation{Name: "scan:nondeterminism-sources", Kind: "scan", Tags: []string{"C03"}, Fn: "scan", Solver: "ssa-scan", Result: "unsat",
+		Desc: fmt.Sprintf("%d functions scanned: no go/select statement, clock, random source or pointer-to-integer conversion", nfn)}
+	if len(bad) > 0 {
+		o.Result = "sat"
+		o.Desc = strings.Join(bad, "; ")
+	}
+	cc.extra = append(cc.extra, o)
 }
 
 var boundedPkgs = map[string][]string{ // property -> packages with a bounded harness (bounded/<pkg>_bounded_test.go)
@@ -453,6 +498,20 @@ func (cc *checkCtx) runAccessScans() {
 							if !allowed[key] {
 								offenders[key] = cc.posOfIns(ins)
 							}
+						}
+					case "mapranges":
+						rg, ok := ins.(*ssa.Range)
+						if !ok {
+							continue
+						}
+						if _, isMap := rg.X.Type().Underlying().(*types.Map); !isMap {
+							continue
+						}
+						nsites++
+						if !allowed[key] {
+							offenders[key] = cc.posOfIns(ins)
+						} else if why := mapRangeOnlyCollectsKeys(rg); why != "" {
+							offenders[key+" ("+why+")"] = cc.posOfIns(ins)
 						}
 					case "globalwriters":
 						var addr ssa.Value
@@ -636,4 +695,82 @@ func (c *evalCtx) peelForall(e Expr) string {
 		}
 	}
 	return c.evalB(e)
+}
+
+// mapRangeOnlyCollectsKeys checks the shape "for k := range m { keys = append(keys, k) }" followed by a sort of the
+// collected slice: the loop body may only append the key to a slice, and the function must call sort.Strings.
+// Returns "" when the shape holds, otherwise the reason.
+func mapRangeOnlyCollectsKeys(rg *ssa.Range) string {
+	fn := rg.Parent()
+	// find the loop: blocks reachable from the Next instruction's block until back to it
+	var next *ssa.Next
+	for _, r := range *rg.Referrers() {
+		if n, ok := r.(*ssa.Next); ok {
+			next = n
+		}
+	}
+	if next == nil {
+		return "no Next"
+	}
+	head := next.Block()
+	body := map[*ssa.BasicBlock]bool{}
+	var walk func(b *ssa.BasicBlock)
+	walk = func(b *ssa.BasicBlock) {
+		if body[b] || b == head {
+			return
+		}
+		body[b] = true
+		for _, s := range b.Succs {
+			walk(s)
+		}
+	}
+	// the body successor is the one from which head is reachable
+	for _, s := range head.Succs {
+		if reaches(s, head, map[*ssa.BasicBlock]bool{}) {
+			walk(s)
+		}
+	}
+	for b := range body {
+		for _, ins := range b.Instrs {
+			switch x := ins.(type) {
+			case *ssa.Call:
+				if bi, ok := x.Call.Value.(*ssa.Builtin); ok && (bi.Name() == "append" || bi.Name() == "len") {
+					continue
+				}
+				return "loop body calls " + x.Call.Value.Name()
+			case *ssa.Return, *ssa.Panic, *ssa.MapUpdate, *ssa.Defer, *ssa.Go:
+				return fmt.Sprintf("loop body contains %T", ins)
+			}
+		}
+	}
+	sorted := false
+	for _, b := range fn.Blocks {
+		for _, ins := range b.Instrs {
+			if c, ok := ins.(*ssa.Call); ok {
+				if f := c.Call.StaticCallee(); f != nil && f.Pkg != nil && f.Pkg.Pkg.Path() == "sort" {
+					sorted = true
+				}
+			}
+		}
+	}
+	if !sorted {
+		return "collected keys are not sorted"
+	}
+	return ""
+}
+
+func reaches(from, to *ssa.BasicBlock, seen map[*ssa.BasicBlock]bool) bool {
+	if from == to {
+		return true
+	}
+	if seen[from] {
+		return false
+	}
+	seen[from] = true
+	for _, s := range from.Succs {
+		if reaches(s, to, seen) {
+			return true
+		}
+	}
+	return false
 }
